@@ -162,4 +162,73 @@ pools:
   loadBalance:
     policy: random
 `},
+	{"CertExtractor", `
+kind: CertExtractor
+name: f
+certIndex: 0
+target: subject
+field: CommonName
+headerKey: X-Cert-CN
+`, `
+kind: CertExtractor
+name: f
+certIndex: -1
+target: issuer
+field: Organization
+headerKey: X-Cert-Org
+`},
+	{"HeaderToJSON", `
+kind: HeaderToJSON
+name: f
+headerMap:
+- header: X-Tag
+  json: tag
+`, `
+kind: HeaderToJSON
+name: f
+headerMap:
+- header: X-Tag
+  json: tag
+- header: Content-Type
+  json: ct
+`},
+	{"MeshAdaptor", `
+kind: MeshAdaptor
+name: f
+serviceCanaries:
+- header:
+    add:
+      X-Canary: "1"
+  filter:
+    headers:
+      X-Tag:
+        exact: a
+`, `
+kind: MeshAdaptor
+name: f
+serviceCanaries:
+- header:
+    set:
+      X-Canary: "2"
+  filter:
+    matchAllHeaders: true
+    headers:
+      X-Tag:
+        prefix: a
+    urls:
+    - methods: [GET]
+      url:
+        prefix: /
+`},
+	{"RemoteFilter", `
+kind: RemoteFilter
+name: f
+url: http://127.0.0.1:9/filter
+timeout: 10ms
+`, `
+kind: RemoteFilter
+name: f
+url: http://127.0.0.1:9/other
+timeout: 20ms
+`},
 }
